@@ -26,6 +26,8 @@ import warnings
 
 from . import common as C
 
+RESULT_FIELDS = ("outcome", "status", "objk", "obj", "v", "rows", "accessor", "ess", "lb", "ub", "med", "none", "cols",
+                 "suff", "plus", "minus", "fluxk", "flux", "lo", "hi", "rendered", "rexc")
 INF = 1000000
 SCALE = 10 ** 6
 BIG = 1999                      # |value| must stay below 2000 (fixed point in 32 bits)
@@ -44,34 +46,111 @@ TIERS = {
             "controls": 1,
             "families": [
                 {"Mode": "full", "NMets": 2, "NRxns": 3, "Pal": "PalS", "Dirs": "DirsMax"},
-                {"Mode": "rand", "NMets": 3, "NRxns": 5, "Pal": "PalB", "Dirs": "DirsMax", "NWalks": 260},
+                {"Mode": "rand", "NMets": 3, "NRxns": 5, "Pal": "PalB", "Dirs": "DirsMax", "NWalks": 300},
                 {"Mode": "rand", "NMets": 2, "NRxns": 4, "Pal": "PalInf", "Dirs": "DirsMax", "NWalks": 120},
             ],
-            "exact_every": 4,
+            "exact_every": 6,
         },
         "thorough": {
             "design": {"Mode": "full", "NMets": 2, "NRxns": 3, "Pal": "PalA", "Dirs": "DirsBoth"},
             "controls": 99,
             "families": [
                 {"Mode": "full", "NMets": 2, "NRxns": 3, "Pal": "PalA", "Dirs": "DirsBoth"},
-                {"Mode": "rand", "NMets": 3, "NRxns": 5, "Pal": "PalB", "Dirs": "DirsMax", "NWalks": 6000},
-                {"Mode": "rand", "NMets": 3, "NRxns": 6, "Pal": "PalA", "Dirs": "DirsMax", "NWalks": 1500},
-                {"Mode": "rand", "NMets": 2, "NRxns": 4, "Pal": "PalInf", "Dirs": "DirsMax", "NWalks": 2500},
+                {"Mode": "rand", "NMets": 3, "NRxns": 5, "Pal": "PalB", "Dirs": "DirsMax", "NWalks": 4500},
+                {"Mode": "rand", "NMets": 3, "NRxns": 6, "Pal": "PalA", "Dirs": "DirsMax", "NWalks": 1000},
+                {"Mode": "rand", "NMets": 2, "NRxns": 4, "Pal": "PalInf", "Dirs": "DirsMax", "NWalks": 2000},
             ],
             "exact_every": 3,
         },
     },
 }
+TIERS["C06"] = {
+    "quick": {
+        "design": {"Mode": "full", "NMets": 2, "NRxns": 3, "Pal": "PalS", "Dirs": "DirsMax"},
+        "controls": 1,
+        "families": [
+            {"Mode": "full", "NMets": 2, "NRxns": 3, "Pal": "PalS", "Dirs": "DirsMax"},
+            {"Mode": "rand", "NMets": 3, "NRxns": 5, "Pal": "PalB", "Dirs": "DirsMax", "NWalks": 200},
+            {"Mode": "rand", "NMets": 2, "NRxns": 4, "Pal": "PalInf", "Dirs": "DirsMax", "NWalks": 80},
+        ],
+        "exact_every": 6,
+    },
+    "thorough": {
+        "design": {"Mode": "full", "NMets": 2, "NRxns": 3, "Pal": "PalA", "Dirs": "DirsBoth"},
+        "controls": 99,
+        "families": [
+            {"Mode": "full", "NMets": 2, "NRxns": 3, "Pal": "PalA", "Dirs": "DirsBoth"},
+            {"Mode": "rand", "NMets": 3, "NRxns": 5, "Pal": "PalB", "Dirs": "DirsMax", "NWalks": 4000},
+            {"Mode": "rand", "NMets": 3, "NRxns": 6, "Pal": "PalA", "Dirs": "DirsMax", "NWalks": 1000},
+            {"Mode": "rand", "NMets": 2, "NRxns": 4, "Pal": "PalInf", "Dirs": "DirsMax", "NWalks": 1500},
+        ],
+        "exact_every": 4,
+    },
+}
+TIERS["C18"] = {
+    "quick": {
+        "design": {"Mode": "full", "NMets": 2, "NRxns": 3, "Pal": "PalS", "Dirs": "DirsMax"},
+        "controls": 1,
+        "families": [
+            {"Mode": "full", "NMets": 2, "NRxns": 3, "Pal": "PalS", "Dirs": "DirsMax"},
+            {"Mode": "rand", "NMets": 3, "NRxns": 5, "Pal": "PalMed", "Dirs": "DirsMax", "NWalks": 200},
+            {"Mode": "rand", "NMets": 2, "NRxns": 4, "Pal": "PalInf", "Dirs": "DirsMax", "NWalks": 60},
+        ],
+        "exact_every": 0,
+    },
+    "thorough": {
+        "design": {"Mode": "full", "NMets": 2, "NRxns": 3, "Pal": "PalMed", "Dirs": "DirsMax"},
+        "controls": 99,
+        "families": [
+            {"Mode": "full", "NMets": 2, "NRxns": 3, "Pal": "PalMed", "Dirs": "DirsMax"},
+            {"Mode": "full", "NMets": 2, "NRxns": 4, "Pal": "PalS", "Dirs": "DirsMax"},
+            {"Mode": "rand", "NMets": 3, "NRxns": 5, "Pal": "PalMed", "Dirs": "DirsMax", "NWalks": 4000},
+            {"Mode": "rand", "NMets": 3, "NRxns": 6, "Pal": "PalS", "Dirs": "DirsMax", "NWalks": 1500},
+            {"Mode": "rand", "NMets": 2, "NRxns": 4, "Pal": "PalInf", "Dirs": "DirsMax", "NWalks": 500},
+        ],
+        "exact_every": 0,
+    },
+}
+TIERS["C20"] = {
+    "quick": {
+        "design": {"Mode": "full", "NMets": 2, "NRxns": 3, "Pal": "PalS", "Dirs": "DirsMax"},
+        "controls": 1,
+        "families": [
+            {"Mode": "full", "NMets": 2, "NRxns": 3, "Pal": "PalS", "Dirs": "DirsMax"},
+            {"Mode": "rand", "NMets": 3, "NRxns": 5, "Pal": "PalB", "Dirs": "DirsMax", "NWalks": 80},
+        ],
+        "exact_every": 0,
+    },
+    "thorough": {
+        "design": {"Mode": "full", "NMets": 2, "NRxns": 3, "Pal": "PalA", "Dirs": "DirsBoth"},
+        "controls": 99,
+        "families": [
+            {"Mode": "full", "NMets": 2, "NRxns": 3, "Pal": "PalA", "Dirs": "DirsBoth"},
+            {"Mode": "rand", "NMets": 3, "NRxns": 5, "Pal": "PalB", "Dirs": "DirsMax", "NWalks": 2500},
+        ],
+        "exact_every": 0,
+    },
+}
 THEOREMS = {
     "C09": ["ThmPfbaFormulation", "ThmPfbaMonotone", "ThmMomaFormulation", "ThmRoomFormulation", "ThmAdjustSanity",
             "ThmRefsInScope"],
+    "C06": ["ThmGeneKOProtocol", "ThmRuleEval", "ThmCombinations", "ThmEssential"],
+    "C18": ["ThmMediumInverse", "ThmMinMedium"],
+    "C20": ["ThmSummary"],
 }
 CONTROLS = {      # Bug -> the theorem TLC must reject
     "C09": [("pfba_forward_only", "ThmPfbaFormulation"), ("room_no_abs", "ThmRoomFormulation"),
             ("moma_difference_sign", "ThmMomaFormulation")],
+    "C06": [("rule_and_as_any", "ThmRuleEval"), ("gene_ko_zeroes_all_associated", "ThmGeneKOProtocol"),
+            ("combinations_drop_diagonal", "ThmCombinations")],
+    "C18": [("medium_is_export_inverted", "ThmMediumInverse"), ("components_counts_exports", "ThmMinMedium")],
+    "C20": [("summary_no_minmax_swap", "ThmSummary")],
 }
 ACTIONS = {
     "C09": ["pfba", "moma", "room", "linroom", "roomdef"],
+    "C06": ["srd", "sgd", "drd", "dgd", "ess_r", "ess_g"],
+    "C18": ["getmed", "setmed", "setcur", "minmed"],
+    "C20": ["model", "met", "rxn"],
 }
 SPEC_MODULES = ("FluxLatticeOps", "Flux2Ops", "Flux2")
 
@@ -257,7 +336,283 @@ def drive_c09(item, rec):
     return {"tid": item["tid"], "prop": "C09", "M": M, "events": events}
 
 
-DRIVERS = {"C09": drive_c09}
+def _gene_text(text, M, pal):
+    import re
+    return re.sub(r"\bg(\d)\b", lambda m: pal["gx"].format("g" + m.group(1)), text)
+
+
+def drive_c06(item, rec):
+    import cobra
+    import pandas as pd
+    from cobra.flux_analysis import (double_gene_deletion, double_reaction_deletion, find_essential_genes,
+                                     find_essential_reactions, single_gene_deletion, single_reaction_deletion)
+    inst, pal = item["inst"], item["pal"]
+    M = dict(inst["M"])
+    M["rules"] = [_gene_text(t, M, pal) for t in inst["M"]["ruletext"]]
+    model, rxns, mets = build_model(M, pal)
+    M = inst["M"]
+    genes = [model.genes.get_by_id(pal["gx"].format(g)) for g in M["genes"]]
+    if len(model.genes) != len(genes):
+        raise C.Machinery("gene list of the built model differs from the instance")
+    rpos = {r.id: i + 1 for i, r in enumerate(rxns)}
+    gpos = {g.id: i + 1 for i, g in enumerate(genes)}
+    ids = [r.id for r in rxns]
+    events = []
+    for j, cl in enumerate(inst["calls"]):
+        ev = dict(cl)
+        ev.update({"outcome": "ok", "rows": [], "accessor": True, "ess": []})
+        crash = rec.begin(j)
+        if crash:
+            ev["outcome"] = crash
+            events.append(ev)
+            continue
+        k = cl["k"]
+        isr = k in ("srd", "drd", "ess_r")
+        pool, pos = (rxns, rpos) if isr else (genes, gpos)
+
+        def mk(lst):
+            return [pool[i - 1] if cl["byobj"] else pool[i - 1].id for i in lst]
+        try:
+            if k in ("ess_r", "ess_g"):
+                thr = None if cl["tdefault"] else cl["tnum"] / cl["tden"]
+                fn = find_essential_reactions if isr else find_essential_genes
+                res = fn(model, threshold=thr, processes=1)
+                ev["ess"] = sorted(pos.get(x.id, 0) for x in res)
+            else:
+                kw = {"method": "fba" if cl["method"] == "fba" else "linear moma", "processes": 1}
+                if cl["refgiven"]:
+                    kw["solution"] = cobra.Solution(float(cl["refobj"]), "optimal",
+                                                    fluxes=pd.Series([float(x) for x in cl["ref"]], index=ids))
+                a = mk(cl["l1"]) if cl["l1given"] else None
+                b = mk(cl["l2"]) if cl["l2given"] else None
+                if k == "srd":
+                    df = single_reaction_deletion(model, a, **kw)
+                elif k == "sgd":
+                    df = single_gene_deletion(model, a, **kw)
+                elif k == "drd":
+                    df = double_reaction_deletion(model, a, b, **kw)
+                elif k == "dgd":
+                    df = double_gene_deletion(model, a, b, **kw)
+                else:
+                    raise C.Machinery("unknown call %r" % (k,))
+                rows = []
+                acc = True
+                for _, row in df.iterrows():
+                    gk, g = fx(row["growth"])
+                    rows.append({"ids": sorted(pos.get(x, 0) for x in row["ids"]), "gk": gk, "growth": g,
+                                 "status": str(row["status"])})
+                    try:
+                        sub = df.knockout[set(row["ids"])]
+                        same = len(sub) >= 1 and all(set(x) == set(row["ids"]) for x in sub["ids"])
+                        n_same = sum(1 for x in df["ids"] if set(x) == set(row["ids"]))
+                        acc = acc and same and len(sub) == n_same
+                    except Exception:
+                        acc = False
+                rows.sort(key=lambda r: r["ids"])
+                ev["rows"], ev["accessor"] = rows, bool(acc)
+        except C.Machinery:
+            raise
+        except Exception as e:
+            ev["outcome"] = "exc:" + type(e).__name__
+        events.append(ev)
+    return {"tid": item["tid"], "prop": "C06", "M": M, "events": events}
+
+
+def _tok(x):
+    """a bound / medium value as an integer token (the instances only have integer bounds)"""
+    x = float(x)
+    if math.isinf(x):
+        return INF if x > 0 else -INF
+    if x != int(x) or abs(x) >= INF:
+        raise C.Machinery("non-integer bound %r in a medium trace" % (x,))
+    return int(x)
+
+
+def drive_c18(item, rec):
+    import cobra
+    from cobra.medium import minimal_medium
+    inst, pal = item["inst"], item["pal"]
+    M = inst["M"]
+    n = len(M["rxns"])
+    model, rxns, mets = build_model(M, pal)
+    ids = [r.id for r in rxns]
+    pos = {r.id: i for i, r in enumerate(rxns)}
+    S = M["S"]
+    exch = [i for i in range(n) if sum(1 for x in S[i] if x) == 1
+            and M["comp"][[j for j, x in enumerate(S[i]) if x][0]] == "e"]
+    if sorted(pos[r.id] for r in model.exchanges) != exch:
+        raise C.Machinery("exchange set of the built model differs from the instance: %s vs %s"
+                          % (sorted(r.id for r in model.exchanges), exch))
+    events = []
+
+    def observe(m, rs):
+        med = [-1] * n
+        for k, v in m.medium.items():
+            med[pos[k]] = _tok(v)
+        return {"lb": [_tok(r.lower_bound) for r in rs], "ub": [_tok(r.upper_bound) for r in rs], "med": med}
+
+    for j, cl in enumerate(inst["calls"]):
+        ev = dict(cl)
+        ev.update({"outcome": "ok", "lb": list(M["lb"]), "ub": list(M["ub"]), "med": [-1] * n, "none": False,
+                   "cols": [], "suff": []})
+        crash = rec.begin(j)
+        if crash:
+            ev["outcome"] = crash
+            events.append(ev)
+            continue
+        k = cl["k"]
+        try:
+            if k == "getmed":
+                ev.update(observe(model, rxns))
+            elif k in ("setmed", "setcur"):
+                try:
+                    if k == "setcur":
+                        model.medium = model.medium
+                    else:
+                        model.medium = {ids[r]: cl["d"][r] for r in range(n) if cl["d"][r] != -1}
+                finally:
+                    ev.update(observe(model, rxns))
+            elif k == "minmed":
+                fresh, frx, _ = build_model(M, pal)
+                op = True if cl["opentrue"] else (cl["open"] if cl["open"] else False)
+                mc = False if cl["mc"] == 0 else (True if cl["mc"] == 1 else cl["mc"])
+                res = minimal_medium(fresh, cl["g"], exports=cl["exports"], minimize_components=mc, open_exchanges=op)
+                if res is None:
+                    ev["none"] = True
+                else:
+                    cols = [res] if res.ndim == 1 else [res[c] for c in res.columns]
+                    for col in cols:
+                        vec = [0] * n
+                        for rid, val in col.items():
+                            kind, f = fx(val)
+                            if kind != "num":
+                                raise C.Machinery("non-numeric medium entry %r" % (val,))
+                            vec[pos[rid]] = f
+                        ev["cols"].append(vec)
+                        # sufficiency: apply as medium to a copy (with the same opening) and maximise
+                        chk, crx, _ = build_model(M, pal)
+                        if op:
+                            ob = 1000 if op is True else op
+                            for r in chk.exchanges:
+                                r.bounds = (-ob, ob)
+                        chk.medium = {rid: float(val) for rid, val in col.items() if val > 0}
+                        chk.objective_direction = "max"
+                        val = chk.slim_optimize()
+                        st = chk.solver.status
+                        if st == "optimal":
+                            kind, f = fx(val)
+                            ev["suff"].append({"sk": kind if kind == "num" else "unb", "sv": f})
+                        elif st == "unbounded":
+                            ev["suff"].append({"sk": "unb", "sv": 0})
+                        else:
+                            ev["suff"].append({"sk": "inf", "sv": 0})
+            else:
+                raise C.Machinery("unknown call %r" % (k,))
+        except C.Machinery:
+            raise
+        except Exception as e:
+            ev["outcome"] = "exc:" + type(e).__name__
+        events.append(ev)
+    return {"tid": item["tid"], "prop": "C18", "M": M, "events": events}
+
+
+def _rows(frame, rpos, mpos, has_met, has_rng, has_pct):
+    out = []
+    for _, row in frame.iterrows():
+        k, f = fx(row["flux"])
+        if k != "num":
+            raise C.Machinery("non-numeric summary flux %r" % (row["flux"],))
+        lo = hi = 0
+        if has_rng:
+            k1, lo = fx(row["minimum"])
+            k2, hi = fx(row["maximum"])
+            if k1 != "num" or k2 != "num":
+                lo = hi = -1999 * SCALE
+        pk, pct = ("none", 0)
+        if has_pct:
+            pk, pct = fx(row["percent"])
+        out.append({"rxn": rpos.get(row["reaction"], 0), "met": mpos.get(row["metabolite"], 0) if has_met else 0,
+                    "flux": f, "lo": lo, "hi": hi, "pk": pk, "pct": pct})
+    out.sort(key=lambda r: r["rxn"])
+    return out
+
+
+def drive_c20(item, rec):
+    import cobra
+    import pandas as pd
+    cobra.Configuration().processes = 1
+    inst, pal = item["inst"], item["pal"]
+    models = {}
+    events = []
+    for j, cl in enumerate(inst["calls"]):
+        M = inst["MS"] if cl["scaled"] else inst["M"]
+        key = bool(cl["scaled"])
+        if key not in models:
+            models[key] = build_model(M, pal)
+        model, rxns, mets = models[key]
+        n = len(rxns)
+        ids = [r.id for r in rxns]
+        rpos = {r.id: i + 1 for i, r in enumerate(rxns)}
+        mpos = {m.id: i + 1 for i, m in enumerate(mets)}
+        ev = dict(cl)
+        ev.update({"outcome": "ok", "plus": [], "minus": [], "objk": "nan", "obj": 0, "fluxk": "nan", "flux": 0,
+                   "lo": 0, "hi": 0, "rendered": True, "rexc": "none"})
+        crash = rec.begin(j)
+        if crash:
+            ev["outcome"] = crash
+            events.append(ev)
+            continue
+        try:
+            sol = None
+            if cl["solgiven"]:
+                sol = cobra.Solution(float(sum(a * b for a, b in zip(M["c"], cl["sol"]))), "optimal",
+                                     fluxes=pd.Series([float(x) for x in cl["sol"]], index=ids))
+            fva = None
+            if cl["fvak"] == "float":
+                fva = cl["fnum"] / cl["fden"]
+            elif cl["fvak"] == "frame":
+                fva = pd.DataFrame({"minimum": [float(a) for a, b in cl["frame"]],
+                                    "maximum": [float(b) for a, b in cl["frame"]]}, index=ids)
+            has_rng = fva is not None
+            k = cl["k"]
+            if k == "model":
+                s = model.summary(solution=sol, fva=fva)
+                ev["plus"] = _rows(s.uptake_flux, rpos, mpos, True, has_rng, False)
+                ev["minus"] = _rows(s.secretion_flux, rpos, mpos, True, has_rng, False)
+                ev["objk"], ev["obj"] = fx(s._objective_value)
+            elif k == "met":
+                s = mets[cl["idx"] - 1].summary(solution=sol, fva=fva)
+                ev["plus"] = _rows(s.producing_flux, rpos, mpos, False, has_rng, True)
+                ev["minus"] = _rows(s.consuming_flux, rpos, mpos, False, has_rng, True)
+            elif k == "rxn":
+                s = rxns[cl["idx"] - 1].summary(solution=sol, fva=fva)
+            else:
+                raise C.Machinery("unknown call %r" % (k,))
+            try:
+                fr = s.to_frame()
+                if k == "rxn":
+                    ev["fluxk"], ev["flux"] = fx(fr["flux"].iloc[0])
+                    if has_rng:
+                        _, ev["lo"] = fx(fr["minimum"].iloc[0])
+                        _, ev["hi"] = fx(fr["maximum"].iloc[0])
+                if not isinstance(s.to_string(), str) or not isinstance(s.to_html(), str):
+                    raise TypeError("not a string")
+                if j % 4 == 0:
+                    str(s)
+                    s._repr_html_()
+                    s.to_string(names=True)
+            except Exception as e:                  # "renders without error" is a clause of the property
+                ev["rendered"] = False
+                ev["rexc"] = type(e).__name__
+        except C.Machinery:
+            raise
+        except Exception as e:
+            ev["outcome"] = "exc:" + type(e).__name__
+        events.append(ev)
+    return {"tid": item["tid"], "prop": "C20", "M": inst["M"], "MS": inst["MS"], "events": events}
+
+
+DRIVERS = {"C09": drive_c09, "C06": drive_c06, "C18": drive_c18, "C20": drive_c20}
 
 
 # ---------------------------------------------------------------------------------- forked workers
@@ -425,6 +780,7 @@ def _report_verdicts(rep, prop, verdicts, traces, items):
         t = by_tid[v["tid"]]
         v2 = dict(v)
         v2["spec"] = "Flux2"
+        v2["clause_class"] = "+".join(sorted(v["clauses"]))
         v2["palette"] = it["pal"]["name"]
         v2["event"] = t["events"][v["l"] - 1]
         rep.verdict(v2, {"engine": "flux2", "prop": prop, "palette": it["pal"]["name"], "instance": it["inst"]})
@@ -468,11 +824,11 @@ def run(prop, tier, replay=None):
             per_action[e["k"]] = per_action.get(e["k"], 0) + 1
             outcomes[e["outcome"]] = outcomes.get(e["outcome"], 0) + 1
             distinct_cases.add(hash(json.dumps([t["M"], {k: e[k] for k in e if k not in
-                                                         ("outcome", "status", "objk", "obj", "v")}], sort_keys=True)))
+                                                         RESULT_FIELDS}], sort_keys=True)))
     missing = [k for k in ACTIONS[prop] if not per_action.get(k)]
     if missing:
         raise C.Machinery("vacuity: actions never exercised: %s" % missing)
-    if nevents and counts["UNDECIDED"] + counts["OUTSCOPE"] > 0.25 * nevents:
+    if nevents and counts["UNDECIDED"] + counts["OUTSCOPE"] > 0.5 * nevents:
         raise C.Machinery("vacuity: %d of %d events undecided or out of scope" % (
             counts["UNDECIDED"] + counts["OUTSCOPE"], nevents))
     rep.coverage["behaviour_generation"] = gen_cov
@@ -493,6 +849,34 @@ def run(prop, tier, replay=None):
 
 
 ASSUMPTIONS = {
+    "C18": [
+        "exhaustive within the constants of the `full` family (every in-scope instance with one external and one "
+        "internal metabolite, 3 reactions, the bound palette, every objective reaction); drawn sub-dictionaries; the "
+        "`rand` families are samples",
+        "exchanges are the boundary reactions of external metabolites (compartment 'e', plain ids, no SBO terms)",
+        "None-iff-unreachable and the component count are exact for every integer objective; the minimal total import "
+        "is compared only when `objective >= g` is a bound (Decidable_minmedium)",
+        "open_exchanges=True (+-1000) is checked for sufficiency only; sufficiency is measured by applying the returned "
+        "imports as the medium of a fresh copy (opened the same way) and maximising the objective",
+    ],
+    "C20": [
+        "exhaustive within the constants of the `full` family; solutions are integer lattice points (an optimal "
+        "vertex, a drawn feasible point, boundary coefficients scaled by 2) or the pFBA default; FVA as a drawn integer "
+        "frame or as a fraction (lattice ranges, Decidable guard)",
+        "with the pFBA default the flux clauses are judged only when the pFBA optimum is a single point; the "
+        "structural clauses (every reaction once, totals balance, percentages sum to one, objective value) always",
+        "content of the rendered text / HTML is not inspected beyond 'renders'; Configuration().processes = 1",
+    ],
+    "C06": [
+        "exhaustive within the constants of the `full` family (every in-scope instance with 2 metabolites, 3 "
+        "reactions, the bound palette, every objective reaction; one drawn rule assignment and drawn partial lists "
+        "per instance); the `rand` families are samples",
+        "the integer lattice is the LP optimum on unit-network instances (FluxLatticeOps.tla); linear MOMA growth is "
+        "checked for membership in the growth interval of the argmin face, with a given optimal reference or the "
+        "pFBA default when that is a single point",
+        "processes=1 (parallel deletion is another engine); quadratic MOMA and ROOM deletions not reached",
+        "explicit essentiality thresholds are half-integers so that no attainable growth value ties with them",
+    ],
     "C09": [
         "exhaustive within the constants of the `full` family (every in-scope instance with 2 metabolites, 3 "
         "reactions, the bound palette, every objective reaction, every single knock-out); the `rand` families are samples",
